@@ -767,6 +767,17 @@ func (e *Eff) WritesFrom(roots ...*ssa.Function) []Write {
 					out = append(out, Write{fn, in, "store", what, "store through a reference to memory not allocated by this query"})
 				}
 			case *ssa.MapUpdate:
+				// the map field of a struct received by value: the struct is a copy, the map is not
+				if ld, ok := in.Map.(*ssa.UnOp); ok && ld.Op == token.MUL {
+					if fa, ok := ld.X.(*ssa.FieldAddr); ok {
+						if al, ok := fa.X.(*ssa.Alloc); ok && spilledParam(al) != nil {
+							if n, f, ok := fieldOf(fa); ok {
+								out = append(out, Write{fn, in, "mapupdate", fieldKey(n, f), "update of a map not allocated by this query"})
+								return
+							}
+						}
+					}
+				}
 				if !e.fresh(in.Map) {
 					if deferToCaller(fn, in.Map) {
 						return
@@ -872,4 +883,24 @@ func effOf(c *Ctx) *Eff {
 	e := NewEff(c.P)
 	c.Extra["__eff"] = e
 	return e
+}
+
+// spilledParam: the local cell a holds a by-value parameter (the only store into it is that
+// parameter).
+func spilledParam(a *ssa.Alloc) *ssa.Parameter {
+	rs := a.Referrers()
+	if rs == nil {
+		return nil
+	}
+	var p *ssa.Parameter
+	for _, r := range *rs {
+		if st, ok := r.(*ssa.Store); ok && st.Addr == ssa.Value(a) {
+			pp, isP := st.Val.(*ssa.Parameter)
+			if !isP || (p != nil && p != pp) {
+				return nil
+			}
+			p = pp
+		}
+	}
+	return p
 }
